@@ -250,6 +250,76 @@ func checkC14(w *World, r *Report) {
 		r.Check(cmp, "R14.2", "assertReferenceStatus: comparison", afd.Pos(), "status(src) < status(dst) ⇒ error", "a current definition may reference a deprecated/obsolete one in its own module")
 	})
 
+	r.Rule("R14.11", "the reference-status rule sees every node on an augment or refine path, the target included: in getDataDescendant the checker handed in is called on each node found before that node is returned or descended into", 1)
+	r.guard("R14.11", func() {
+		f := w.SSAFunc(w.Method("compile", "Compiler", "getDataDescendant"))
+		if f == nil {
+			panic(undecided{"Compiler.getDataDescendant"})
+		}
+		var checker *ssa.Parameter
+		for _, prm := range f.Params {
+			if sig, ok := prm.Type().Underlying().(*types.Signature); ok && sig.Params().Len() == 1 && sig.Results().Len() == 0 {
+				checker = prm
+			}
+		}
+		if checker == nil {
+			panic(undecided{"getDataDescendant: checker parameter"})
+		}
+		var found []*ssa.Call // the node found at this level
+		for _, b := range f.Blocks {
+			for _, in := range b.Instrs {
+				if c, ok := in.(*ssa.Call); ok && c.Call.StaticCallee() != nil && nm(c.Call.StaticCallee()) == "getNext" {
+					found = append(found, c)
+				}
+			}
+		}
+		if len(found) == 0 {
+			panic(undecided{"getDataDescendant: lookup of the next node"})
+		}
+		checkedAt := func(node ssa.Value, at ssa.Instruction) bool {
+			for _, b := range f.Blocks {
+				for i, in := range b.Instrs {
+					c, ok := in.(*ssa.Call)
+					if !ok || c.Call.Value != ssa.Value(checker) || len(c.Call.Args) != 1 || c.Call.Args[0] != node {
+						continue
+					}
+					if b == at.Block() {
+						for j, x := range b.Instrs {
+							if x == at && i < j {
+								return true
+							}
+						}
+					} else if b.Dominates(at.Block()) {
+						return true
+					}
+				}
+			}
+			return false
+		}
+		why := ""
+		uses := 0
+		for _, node := range found {
+			for _, ref := range *node.Referrers() {
+				switch x := ref.(type) {
+				case *ssa.Return:
+					uses++
+					if !checkedAt(node, x) {
+						why = "the node found is returned without having been shown to the checker"
+					}
+				case *ssa.Call:
+					if x.Call.Value == ssa.Value(checker) {
+						continue
+					}
+					uses++
+					if !checkedAt(node, x) {
+						why = "the path is followed below a node that was not shown to the checker"
+					}
+				}
+			}
+		}
+		r.Check(why == "" && uses > 0, "R14.11", "getDataDescendant shows every node to the checker", f.Pos(), "checker(next) before next is returned or descended into", why+": e.g. a current uses may refine (or augment) a deprecated or obsolete node of a grouping in its own module, which RFC 6020 §7.19.2 forbids")
+	})
+
 	r.Rule("R14.3", "config inheritance: getConfig rejects exactly (inherited false, own true), returns the own value when the statement is present and the inherited one otherwise", 1)
 	r.guard("R14.3", func() {
 		gc := w.Method("compile", "Compiler", "getConfig")
@@ -483,6 +553,39 @@ func checkC14(w *World, r *Report) {
 			}
 		}
 		r.Check(okC, "R14.4", "CheckIfFeature", cfd.Pos(), "returns the verified (transitive) enablement", "if-feature is evaluated against the raw feature setting, not the verified one that includes dependencies")
+		// the feature asked about is <defining module>:<feature>, both as getModuleAndReference resolved them
+		okKey := false
+		if cf := w.SSAFunc(cif); cf != nil {
+			isNameOf := func(v ssa.Value, idx int) bool {
+				call, ok := v.(*ssa.Call)
+				if !ok || !call.Call.IsInvoke() || nm(call.Call.Method) != "Name" {
+					return false
+				}
+				ex, ok := call.Call.Value.(*ssa.Extract)
+				if !ok || ex.Index != idx {
+					return false
+				}
+				src, ok := ex.Tuple.(*ssa.Call)
+				return ok && src.Call.StaticCallee() != nil && nm(src.Call.StaticCallee()) == "getModuleAndReference"
+			}
+			for _, b := range cf.Blocks {
+				for _, in := range b.Instrs {
+					bo, ok := in.(*ssa.BinOp)
+					if !ok || bo.Op != token.ADD || !isStringType(bo.Type()) {
+						continue
+					}
+					inner, ok := bo.X.(*ssa.BinOp)
+					if !ok || inner.Op != token.ADD {
+						continue
+					}
+					if k, isK := inner.Y.(*ssa.Const); isK && k.Value != nil && k.Value.Kind() == constant.String && constant.StringVal(k.Value) == ":" && isNameOf(inner.X, 0) && isNameOf(bo.Y, 1) {
+						okKey = true
+					}
+				}
+			}
+		}
+		r.Check(okKey, "R14.4", "CheckIfFeature asks about the defining module's feature", cfd.Pos(), "key = module.Name() + \":\" + feature.Name(), both as resolved from the reference",
+			"the feature is looked up under another module's name than the one the reference resolves to (e.g. the module the if-feature statement ended up in): an if-feature on a feature of another module — a prefixed reference, or one inside a grouping used elsewhere — is always taken as disabled")
 	})
 
 	r.Rule("R14.5", "inheritance while descending: BuildNode applies overrideInherited before dispatching to any kind-specific builder and hands its result to that builder; overrideInherited derives status and config through getStatus / getConfig from the inherited values", 2)
